@@ -21,7 +21,7 @@ OUTCOMES = ("ok", "fail", "slow_ok", "slow_fail")
 RULE = (
     "scenario = word over {ok, fail, slow_ok (2.5 s), slow_fail} of length 1..L for the first attempts (later attempts succeed and stay up) x lifetime mode {stays up, lost after 3 s / 7 s alternating}; "
     "baseline run without close(), then one run per (iteration k of the baseline, position) with close() injected there: position first / last (quick) or every index of the ready queue (thorough), and one run per gap between consecutive event times with close() at the midpoint (inside back-off sleeps, slow attempts, idle connections). "
-    "L = 4 quick, 5 thorough. plus reconnect-storm runs of 50 and 3000 cycles for the task bound. trace oracles: I1 <= 1 live connection; I2 no attempt while a connection is live or another attempt pending; "
+    "L = 4 quick, 5 thorough. plus reconnect-storm runs of 50 and 3000 cycles for the task bound, runs of 6..14 consecutive failures (back-off at its cap) and connections whose transport raises from close() after the loss. trace oracles: I1 <= 1 live connection; I2 no attempt while a connection is live or another attempt pending; "
     "I3 every failure/loss followed by an attempt within max(back-off, breaker sleep)+0.25 s while not closed; I4 pending tasks <= 10 and equal for 50 and 3000 cycles; "
     "I5 after close(): connect_loop returns at the same virtual time (+0.25 s slack) within 50 iterations, no attempt_start afterwards during 200 virtual seconds, every obtained transport closed or lost. "
     "evaluations = runs; distinct non-trivial = distinct (scenario, injection iteration, position) triples with close() landing while the manager was active (all injected runs)."
@@ -41,6 +41,7 @@ def plan(tier, seed):
     L = 4 if tier == "quick" else 5
     shards = [{"kind": "enum", "L": L, "mod": 15, "rem": k, "all_positions": tier != "quick"} for k in range(15)]
     shards.append({"kind": "storm", "cycles": [50, 3000] if tier != "quick" else [50, 1500]})
+    shards.append({"kind": "long"})
     return shards
 
 
@@ -151,7 +152,40 @@ def run_one(word, mode, close_at, ctx):
     return res, park
 
 
+def run_long(shard, ctx) -> None:
+    """Baseline-only scenarios beyond the enumerated length: runs of 6..14 consecutive failures before a success (the back-off
+    reaches its cap), and connections whose transport raises from close() after the peer was lost."""
+    for n_fail in range(6, 15):
+        for tail in (["ok"], ["slow_ok"], ["ok", "fail", "ok"]):
+            outcomes = ["fail"] * n_fail + tail
+            lifetimes = [None] * n_fail + [7.0 if o.endswith("ok") else None for o in tail]
+            horizon = sum(min(2 ** i, 60) for i in range(n_fail + 3)) + 200.0
+            res = vloop.run_scenario(outcomes, lifetimes, horizon=horizon, default_outcome="ok", default_lifetime=None)
+            case = {"word": outcomes, "mode": "long_failure_run", "close_at": None, "lifetimes": lifetimes, "horizon": horizon}
+            judge(res, ctx, case, False)
+            n_attempts = sum(1 for e in res["events"] if e[2] == "attempt_start")
+            if n_attempts < len(outcomes) + 1:
+                ctx.violation("C17:no-reconnect-after-failure", f"{n_fail} consecutive failures: only {n_attempts} attempts within {horizon:.0f} virtual seconds ({len(outcomes) + 1} expected)", case)
+            ctx.count("long_failure_run_scenarios")
+            ctx.case(f"long{n_fail}{tail}", True)
+    for word in (["ok", "ok", "ok"], ["ok", "fail", "ok", "ok"], ["slow_ok", "ok", "fail", "fail", "ok"]):
+        lifetimes = [3.0 if o.endswith("ok") else None for o in word]
+        res = vloop.run_scenario(word, lifetimes, horizon=300.0, default_outcome="ok", default_lifetime=None, close_raises_after_loss=True)
+        case = {"word": word, "mode": "close_raises_after_loss", "close_at": None, "lifetimes": lifetimes, "horizon": 300.0}
+        judge(res, ctx, case, False)
+        n_raised = sum(1 for e in res["events"] if e[2] == "close_raised")
+        n_attempts = sum(1 for e in res["events"] if e[2] == "attempt_start")
+        ctx.count("close_raised_events", n_raised)
+        if n_attempts < len(word) + 1:
+            ctx.violation("C17:no-reconnect-after-loss", f"transport.close() raises after the peer was lost: only {n_attempts} attempts for {len(word)} scripted ones + the final one", case)
+        ctx.count("close_raises_scenarios")
+        ctx.case(f"closeraises{word}", True)
+
+
 def run(shard, ctx):
+    if shard["kind"] == "long":
+        run_long(shard, ctx)
+        return
     if shard["kind"] == "storm":
         finals = {}
         for cycles in shard["cycles"]:
@@ -222,6 +256,13 @@ def run(shard, ctx):
 
 
 def replay(case, ctx):
+    if case.get("mode") in ("long_failure_run", "close_raises_after_loss"):
+        res = vloop.run_scenario(case["word"], case["lifetimes"], horizon=case["horizon"], default_outcome="ok", default_lifetime=None,
+                                 close_raises_after_loss=case["mode"] == "close_raises_after_loss")
+        judge(res, ctx, case, False)
+        if sum(1 for e in res["events"] if e[2] == "attempt_start") < len(case["word"]) + 1:
+            ctx.violation("C17:no-reconnect-after-failure" if case["mode"] == "long_failure_run" else "C17:no-reconnect-after-loss", "fewer attempts than scripted", case)
+        return
     if "storm" in case:
         run({"kind": "storm", "cycles": [50, case["cycles"]]}, ctx)
         return
@@ -236,6 +277,9 @@ def finalize(agg, tier):
     want = 2 * sum(4 ** k for k in range(1, L + 1))
     if c.get("baseline_scenarios", 0) != want:
         reasons.append(f"scenario enumeration incomplete: {c.get('baseline_scenarios', 0)} of {want}")
+    for k in ("long_failure_run_scenarios", "close_raised_events"):
+        if c.get(k, 0) == 0:
+            reasons.append(f"monitor never observed '{k}'")
     if c.get("storm_attempts", 0) == 0:
         reasons.append("reconnect-storm runs did not execute")
     return {"exhaustive": not reasons, "exhaustive_scope": f"all outcome words up to length {L} x 2 lifetime modes x close() at every iteration x {'every ready-queue position' if tier != 'quick' else 'first/last position'}"}, reasons
